@@ -26,7 +26,7 @@ pub fn receiver_consecutive_chunk_indices(infos: &[(u32, Option<bool>)]) -> Vec<
         .iter()
         .map(|(id, mode)| DeliveryInfo {
             delivery_id: *id,
-            delivery_tag: DeliveryTag::from(id.to_be_bytes().to_vec()),
+            delivery_tag: DeliveryTag::from(Vec::new()),
             rcv_settle_mode: mode.map(|second| match second {
                 true => ReceiverSettleMode::Second,
                 false => ReceiverSettleMode::First,
